@@ -6,6 +6,8 @@ import RsslVerif.Lemmas.NamesTables
 import RsslVerif.Lemmas.NamesOrder
 import RsslVerif.Model.NamesEmit
 import RsslVerif.Lemmas.NamesEmit
+import RsslVerif.Spec.NamesResolve
+import RsslVerif.Lemmas.NamesEmitWitness
 /-!
 # C15 — renaming is harmless and emitted names are hygienic: theorems about the model of `NameMap::build`
 
@@ -543,6 +545,228 @@ theorem emitted_injective_file_scope {t : Target} {reserved : List String} {p : 
   rw [hna, hnb]
   exact injective_per_scope h xa hma xb hmb (hea ▸ hla.1) (heb ▸ hlb.1) (hsca.trans hscb.symm)
     (by rw [hea, heb]; exact hne)
+
+/-! ### uses resolve to the entity meant (programs without namespaces) -/
+
+theorem numberLocals_scope : ∀ (ls : List String) (i : Nat) (n : Named), n ∈ numberLocals ls i → n.scope = none := by
+  intro ls
+  induction ls with
+  | nil => intro i n h; simp [numberLocals] at h
+  | cons x r ih =>
+    intro i n h
+    simp only [numberLocals, List.mem_cons] at h
+    rcases h with h | h
+    · subst h; rfl
+    · exact ih _ n h
+
+/-- without namespaces every name is given in the root scope -/
+theorem flat_scope_none {reserved : List String} {inp : Input} {names : List Named}
+    (h : build reserved inp = .ok names) (hnss : inp.nss = []) : ∀ x ∈ names, x.scope = none := by
+  obtain ⟨scopes, ls, hs, hl, rfl⟩ := build_ok h
+  intro x hx
+  rcases List.mem_append.mp hx with h1 | h1
+  · obtain ⟨p, hp, hx'⟩ := List.mem_flatMap.mp h1
+    obtain ⟨q, hq, rfl⟩ := List.mem_map.mp hx'
+    have hp1 : p.1 ∈ scopeIds inp := by
+      have := (runScopes_spec _ hs).1
+      rw [← this]; exact List.mem_map.mpr ⟨p, hp, rfl⟩
+    simpa [scopeIds, hnss] using hp1
+  · exact numberLocals_scope ls 0 x h1
+
+theorem namesInput_entries_kind (t : Target) (p : Program) :
+    ∀ e, e ∈ (namesInput t p).entries → e.sym.kind ≠ .localVar := by
+  intro e he
+  simp only [namesInput, List.mem_append] at he
+  rcases he with ((((he | he) | he) | he) | he) | he
+  · obtain ⟨d, _, hd⟩ := List.mem_filterMap.mp he
+    cases hk : d.kind <;> simp [hk] at hd
+    subst hd; simp
+  · split at he
+    · obtain ⟨c, _, rfl⟩ := List.mem_map.mp he; simp
+    · simp at he
+  · obtain ⟨d, _, hd⟩ := List.mem_flatMap.mp he
+    cases hk : d.kind <;> simp [hk] at hd
+    rcases hd with hd | ⟨v, w, _, rfl⟩
+    · subst hd; simp
+    · simp
+  · obtain ⟨d, _, hd⟩ := List.mem_filterMap.mp he
+    cases hk : d.kind <;> simp [hk] at hd
+    · subst hd; simp
+    · subst hd; simp
+  · split at he
+    · obtain ⟨c, _, rfl⟩ := List.mem_map.mp he; simp
+    · simp at he
+  · obtain ⟨d, _, hd⟩ := List.mem_flatMap.mp he
+    cases hk : d.kind <;> simp [hk] at hd
+    · obtain ⟨f, w, _, rfl⟩ := hd; simp
+    · subst hd; simp
+
+/-- **flat_used_name_unique**: in a program without namespaces, on every target configuration, a declaration
+*anywhere* in the emitted program that carries the name printed for a function or global variable `g` some function
+body uses, and that declares an entity of the name map (struct, enum, enum value, global in any of its generated
+positions, function, method, parameter, local), declares `g` itself.  Ingredients: `locals_apart_from_used` (locals and
+parameters), `injective_per_scope` (everything else: without namespaces all of it is named in one scope). -/
+theorem flat_used_name_unique {t : Target} {reserved : List String} {p : Program} {names : List Named}
+    (h : build reserved (namesInput t p) = .ok names)
+    (hflat : ∀ d ∈ p.defs, d.ns = none) (hnss : p.nss = [])
+    {g : Sym} {xg : Named} (hg : g.kind = .global ∨ g.kind = .func) (hused : g ∈ usedSyms t p)
+    (hgn : lookup names g = some xg)
+    {sc : Scope} {k : String} {s : Sym} (htok : Tok.decl sc k xg.name (.sym s) ∈ emit t names p)
+    (hs : (lookup names s).isSome) : s = g := by
+  obtain ⟨xs, hxs⟩ := Option.isSome_iff_exists.mp hs
+  obtain ⟨hms, hes⟩ := lookup_mem hxs
+  obtain ⟨hmg, heg⟩ := lookup_mem hgn
+  have hstrict := emit_flat_strict t names p hflat _ htok
+  simp only [DeclStrict] at hstrict
+  have hname : xg.name = xs.name := by rw [hstrict]; simp [leaf, hxs]
+  have hgk : xg.sym.kind = .func ∨ xg.sym.kind = .global := by
+    rw [heg]; exact hg.symm
+  by_cases hl : xs.sym.kind = .localVar
+  · exact absurd hname.symm
+      (locals_apart_from_used h (namesInput_entries_kind t p) xs hms xg hmg hl hgk (by rw [heg]; exact hused))
+  · have hgl : xg.sym.kind ≠ .localVar := by rcases hgk with h1 | h1 <;> simp [h1]
+    have hsc : xs.scope = xg.scope := by
+      rw [flat_scope_none h (by simp [namesInput, hnss]) xs hms, flat_scope_none h (by simp [namesInput, hnss]) xg hmg]
+    by_cases hsym : xs.sym = xg.sym
+    · rw [← hes, hsym, heg]
+    · exact absurd hname.symm (injective_per_scope h xs hms xg hmg hl hgl hsc hsym)
+
+/-- a function or global named by a `use` in a function body is in the usage analysis of the model -/
+theorem body_use_used {t : Target} {p : Program} {d : Def} (hd : d ∈ p.defs)
+    {o : Nat} {n : String} {ps : List Nat} {body : List BTok} {en : Option Char}
+    (hk : d.kind = .func o n ps body en) {k : Nat} (hb : BTok.use (.glob k) ∈ body) :
+    (⟨.global, k⟩ : Sym) ∈ usedSyms t p := by
+  unfold usedSyms
+  refine List.mem_flatMap.mpr ⟨(o, body), ?_, ?_⟩
+  · exact List.mem_filterMap.mpr ⟨d, hd, by simp [hk]⟩
+  · refine List.mem_filterMap.mpr ⟨.glob k, ?_, rfl⟩
+    exact List.mem_filterMap.mpr ⟨_, hb, rfl⟩
+
+/-- **uses_resolve_to_same_entity** (full for programs without namespaces and the uses of functions and global
+variables; all four target configurations): let `x` be the identifier printed for a function / global `g` that some body
+uses.  Whatever function `f` the identifier is written in, every entity of the name map that C++ lookup
+(`Spec.NamesResolve.resolveFlat`: the function's parameters and locals first — on Metal these include the threaded
+globals —, then the file scope) finds for `x` is `g`.  What the statement does not cover is refuted on the current
+code: declarations that bypass the map can still take the name (`cbuffer_reserved_witness`,
+`generated_name_clash_witness`), with namespaces the relative path can be captured (`relative_path_capture_witness`,
+`msl_threaded_leaf_clash_witness`), and a *type* name is not protected from locals (`local_captures_type_witness`). -/
+theorem uses_resolve_to_same_entity {t : Target} {reserved : List String} {p : Program} {names : List Named}
+    (h : build reserved (namesInput t p) = .ok names)
+    (hflat : ∀ d ∈ p.defs, d.ns = none) (hnss : p.nss = [])
+    {g : Sym} {xg : Named} (hg : g.kind = .global ∨ g.kind = .func) (hused : g ∈ usedSyms t p)
+    (hgn : lookup names g = some xg) (f : Nat) :
+    ∀ e ∈ Spec.NamesResolve.resolveFlat (emit t names p) f xg.name, ∀ s, e = .sym s → (lookup names s).isSome → s = g := by
+  intro e he s hes hs
+  obtain ⟨sc, k, htok⟩ := Spec.NamesResolve.mem_resolveFlat he
+  subst hes
+  exact flat_used_name_unique h hflat hnss hg hused hgn htok hs
+
+/-- non-vacuity of `uses_resolve_to_same_entity` / `flat_used_name_unique` / the two lifts: a program with a struct, a
+static global, a `ConstantBuffer<S>` called `texture`, a buffer address called `sampler`, a helper function and a
+compute entry point.  On HLSL for Vulkan with buffer addresses `texture`, `sampler` are renamed; inside `h` the
+identifier printed for the global `texture` resolves to that global, on Metal (where it is a threaded parameter of `h`)
+as well. -/
+example :
+    let p := Lemmas.NamesEmitWitness.pGood
+    (p.nss = [] ∧ ∀ d ∈ p.defs, d.ns = none) ∧
+    (⟨.global, 1⟩ : Sym) ∈ usedSyms .vkba p ∧
+    (Lemmas.NamesEmitWitness.namesOf .vkba p).map (fun l => l.filter (fun n => n.1 == .global)) =
+      some [(.global, 0, "g"), (.global, 2, "sampler_0"), (.global, 1, "texture_0")] ∧
+    (Lemmas.NamesEmitWitness.toks .vkba p).map (fun l => Spec.NamesResolve.resolveFlat l 0 "texture_0") =
+      some [.sym ⟨.global, 1⟩] ∧
+    (Lemmas.NamesEmitWitness.toks .msl p).map (fun l => Spec.NamesResolve.resolveFlat l 0 "texture") =
+      some [.sym ⟨.global, 1⟩] ∧
+    ((namesInput .vkba p).entries.map (·.sym)).Nodup := by
+  decide +kernel
+
+/-! ### the clauses that are false on the current code: witnesses (evaluated on the model with the regenerated tables;
+each program is a corpus request compared with the real compiler, `checks/c15.py` WITNESSES) -/
+
+open Lemmas.NamesEmitWitness in
+/-- **never reserved is false for struct members** (Metal: `struct zqs { int kernel; }`) -/
+theorem member_reserved_witness :
+    has .msl pMember (.decl (.strct 0) "M" "kernel" (.member 0 0)) = true ∧ "kernel" ∈ Spec.Names.mslKeywords :=
+  member_reserved
+
+open Lemmas.NamesEmitWitness in
+/-- **never reserved is false for cbuffer blocks and their members** (HLSL: `cbuffer abs { float4 int; }`) -/
+theorem cbuffer_reserved_witness :
+    has .dx pCbuffer (.decl (.file none) "C" "abs" (.cbuf 0)) = true ∧ "abs" ∈ Spec.Names.hlslKeywords ∧
+    has .dx pCbuffer (.decl (.file none) "D" "int" (.cbufMember 0 0)) = true ∧ "int" ∈ Spec.Names.hlslKeywords :=
+  cbuffer_reserved
+
+open Lemmas.NamesEmitWitness in
+/-- **uses resolve is false for cbuffer members of a namespace** (HLSL): declared inside `zqn`, used outside by leaf name -/
+theorem cbuffer_member_dangling_witness :
+    has .dx pCbufferNs (.use (.func 0) false ["zqm"] (.cbufMember 0 0)) = true ∧
+    has .dx pCbufferNs (.decl (.file (some 0)) "D" "zqm" (.cbufMember 0 0)) = true ∧
+    (toks .dx pCbufferNs).map (fun l => l.any fun tok => match tok with
+      | .decl sc _ n _ => n == "zqm" && (sc == .file none || sc == .func 0)
+      | _ => false) = some false :=
+  cbuffer_member_dangling
+
+open Lemmas.NamesEmitWitness in
+/-- **distinct entities share a name**: a user global called `g_inlineDescriptor0` next to the generated one (Vulkan
+with buffer addresses) -/
+theorem generated_name_clash_witness :
+    has .vkba pGenerated (.decl (.file none) "G" "g_inlineDescriptor0" (.gen "g_inlineDescriptor0")) = true ∧
+    has .vkba pGenerated (.decl (.file none) "G" "g_inlineDescriptor0" (.sym ⟨.global, 0⟩)) = true :=
+  generated_name_clash
+
+open Lemmas.NamesEmitWitness in
+/-- **uses resolve is false for type names**: a parameter called `S` in a function that names the struct `S` -/
+theorem local_captures_type_witness :
+    has .dx pLocalType (.decl (.func 0) "P" "S" (.sym ⟨.localVar, 0⟩)) = true ∧
+    has .dx pLocalType (.use (.func 0) true ["S"] (.sym ⟨.struct, 0⟩)) = true ∧
+    has .msl pLocalType (.decl (.func 0) "P" "S" (.sym ⟨.localVar, 0⟩)) = true ∧
+    has .msl pLocalType (.use (.func 0) true ["S"] (.sym ⟨.struct, 0⟩)) = true :=
+  local_captures_type
+
+open Lemmas.NamesEmitWitness in
+/-- **uses resolve is false in the Metal entry wrapper**: the entry point's parameter `S` captures the call of the
+entry point `S` -/
+theorem wrapper_param_captures_entry_witness :
+    has .msl pWrapper (.decl .wrapper "P" "S" (.sym ⟨.localVar, 0⟩)) = true ∧
+    has .msl pWrapper (.use .wrapper false ["S"] (.sym ⟨.func, 0⟩)) = true :=
+  wrapper_param_captures_entry
+
+open Lemmas.NamesEmitWitness in
+/-- **distinct entities share a name** (Metal): `N::x` and `M::x` are both threaded as parameter `x` -/
+theorem msl_threaded_leaf_clash_witness :
+    has .msl pThreaded (.decl (.func 0) "P" "x" (.sym ⟨.global, 0⟩)) = true ∧
+    has .msl pThreaded (.decl (.func 0) "P" "x" (.sym ⟨.global, 1⟩)) = true :=
+  msl_threaded_leaf_clash
+
+open Lemmas.NamesEmitWitness in
+/-- **distinct entities share a name** (Vulkan with buffer addresses): `zqn::x` and `x` are both member `x` of
+`InlineDescriptor0` -/
+theorem inline_member_leaf_clash_witness :
+    has .vkba pInline (.decl (.genStruct "InlineDescriptor0") "M" "x" (.sym ⟨.global, 0⟩)) = true ∧
+    has .vkba pInline (.decl (.genStruct "InlineDescriptor0") "M" "x" (.sym ⟨.global, 1⟩)) = true :=
+  inline_member_leaf_clash
+
+open Lemmas.NamesEmitWitness in
+/-- **uses resolve is false with namespaces**: inside `S` the relative path `N` printed for the global `::N` names the
+function `S::N` -/
+theorem relative_path_capture_witness :
+    has .dx pRelative (.use (.func 0) false ["N"] (.sym ⟨.global, 0⟩)) = true ∧
+    has .dx pRelative (.decl (.file (some 0)) "F" "N" (.sym ⟨.func, 0⟩)) = true ∧
+    has .dx pRelative (.decl (.file none) "G" "N" (.sym ⟨.global, 0⟩)) = true :=
+  relative_path_capture
+
+open Lemmas.NamesEmitWitness in
+/-- **verbatim is false for methods**: `S::f` and `T::f`, each unique in its struct, are printed `f_0` and `f_1` -/
+theorem methods_not_verbatim_witness :
+    has .dx pMethods (.decl (.strct 0) "m" "f_0" (.sym ⟨.func, 0⟩)) = true ∧
+    has .dx pMethods (.decl (.strct 1) "m" "f_1" (.sym ⟨.func, 1⟩)) = true :=
+  methods_not_verbatim
+
+open Lemmas.NamesEmitWitness in
+/-- **distinct entities share a name**: the method `log2`, renamed `log2_0` in the root scope, meets the member `log2_0` -/
+theorem member_method_clash_witness :
+    has .dx pMemberMethod (.decl (.strct 0) "M" "log2_0" (.member 0 0)) = true ∧
+    has .dx pMemberMethod (.decl (.strct 0) "m" "log2_0" (.sym ⟨.func, 0⟩)) = true :=
+  member_method_clash
 
 end Emitted
 
